@@ -6,11 +6,27 @@ from .core import (I, Agg, Ref, Opaque, UNINIT, UNIT, NONE, mk_enum, some, paylo
 from .managed import ManagedWorld, FRESH
 from . import explore
 
-GHOST_KEYS = ('objs', 'closed_ret', 'idleq', 'trail', 'resizes', 'hand', 'flags', 'retained_ids', 'created_at', 'met_shadow', 'pool_gone')
+GHOST_KEYS = ('hbk', 'cwi', 'objs', 'closed_ret', 'idleq', 'trail', 'resizes', 'hand', 'flags', 'retained_ids', 'created_at', 'met_shadow', 'pool_gone')
 
 
 def dur(secs, nanos=0):
     return Agg('Duration', [secs if not isinstance(secs, int) else I(secs), I(nanos, 32)])
+
+
+_probe_cache = {}
+def lock_probe_sites(prog):
+    """True iff some function of the deadpool crates calls Mutex::try_lock / is_poisoned / RwLock::try_* (the unchanged crate does not)"""
+    fns = prog[0] if isinstance(prog, tuple) else getattr(prog, 'fns', prog)
+    k = id(fns)
+    if k not in _probe_cache:
+        hit = False
+        for f in (fns.values() if isinstance(fns, dict) else ()):
+            if not (getattr(f, 'crate', None) or '').startswith('deadpool'): continue
+            for lines in f.raw.values():
+                if any(('::try_lock(' in l or '::is_poisoned(' in l or '::try_read(' in l or '::try_write(' in l) for l in lines): hit = True; break
+            if hit: break
+        _probe_cache[k] = hit
+    return _probe_cache[k]
 
 
 class ManagedBSE:
@@ -32,6 +48,13 @@ class ManagedBSE:
         s.M = s.W.M
         s.M.task_mode = not c['thread_mode']
         s.M.fine_points = bool(c.get('fine')); s.M.allow_block = True
+        # Reduction side condition.  User callbacks that run while the calling thread holds the slots lock are normally
+        # not schedule points: every other thread that wants to look at the pool blocks on lock(), so the critical
+        # section is atomic for them.  That argument fails as soon as the crate probes a lock without blocking
+        # (try_lock, is_poisoned): then the callbacks under the lock become schedule points too, other threads block
+        # on lock() and see WouldBlock from try_lock().  Such traces have no native realisation (a blocked thread
+        # resumes on its own, racing the lock holder) and are reported on the engine's evidence.
+        s.M.lock_probe = lock_probe_sites(prog)
         s.tasks = list(c.get('task_names') or [f'T{i + 1}' for i in range(c['tasks'])])
         s.probe_cache = {}
         s.nprobes = 0
@@ -328,7 +351,8 @@ class ManagedBSE:
     def note_get_start(s, st, t, tvs):
         calls = dict(st.gget('calls', {}))
         calls[t] = {'after_resize': len(st.gget('resizes', ())), 'after_close': bool(st.gget('closed_ret')), 'tv': tvs,
-                    'snap': s.snapshot(st), 'clean': True, 'inhand': (), 'nogets': st.threads[t].local['gets']}
+                    'snap': s.snapshot(st), 'clean': True, 'inhand': (), 'nogets': st.threads[t].local['gets'],
+                    'began': sum(1 for e in st.log if e[0] == 'act')}
         for o in calls:
             if o != t: calls[o] = dict(calls[o], clean=False)
         st.gset('calls', calls)
@@ -404,6 +428,7 @@ class ManagedBSE:
     def observe(s, st):
         """what the native driver prints after every action: status() and the guarded snapshot accessor, both run on the MIR"""
         if st.gget('pool') is None: return None, None
+        if s.any_lock_held(st): return None, None        # a parked thread holds the slots lock: the native observer times out as well
         sc = st.clone()
         r = s.W.status(sc, 'S', sc.gget('pool'))
         S = r[0][1][1]
@@ -425,6 +450,11 @@ class ManagedBSE:
         else:
             m = s.M.model(st)
             d['model'] = {'max_size': m.eval(ms, model_completion=True).as_long()} if m is not None else {}
+        subs = st.gget('sub_durs', ())
+        if subs:
+            m = s.M.model(st)
+            if m is not None:
+                for n in subs: d['model'][n] = m.eval(z3.BitVec(n, 32), model_completion=True).as_long() or 1
         return d
 
     def check_gone(s, st):
@@ -514,7 +544,7 @@ class ManagedBSE:
 
     def any_lock_held(s, st):
         """fine mode: a thread preempted inside a critical section holds the slots lock; status() would block"""
-        if not s.cfg.get('fine'): return False
+        if not (s.cfg.get('fine') or s.M.lock_probe): return False
         held = False
         def walk(v):
             nonlocal held
@@ -581,11 +611,15 @@ class ManagedBSE:
             if ne(ssize, I(live)): out.append(s.vio('C11', f'at rest status().size != {live} objects that exist', st, status=repr(S)))
             if ne(savail, I(idle)): out.append(s.vio('C11', f'at rest status().available != {idle} idle objects', st, status=repr(S)))
             if ne(swait, I(len(queued))): out.append(s.vio('C11', f'at rest status().waiting != {len(queued)} blocked callers', st, status=repr(S)))
+            if s.cfg['oracles'][0] == 'C03' and out and any(e[0] == 'act' and e[1] == 'cancel' for e in st.log):
+                # C03: an abandoned get() leaves the pool as if it had never been made - at rest the accounting must equal the ground truth again
+                out.append(s.vio('C03', f'after an abandoned get() the pool is not left as if the call had never been made: at rest status() reports {S!r} but {live} objects exist, {idle} idle, {len(queued)} callers blocked', st, status=repr(S)))
         else:
             creating = len(pending) + sum(1 for t in s.tasks if st.threads[t].stack)
             if gt(ssize, I(live + creating)): out.append(s.vio('C11', 'status().size exceeds objects that exist or are being created', st, status=repr(S)))
             if gt(savail, ssize): out.append(s.vio('C11', 'status().available exceeds size', st, status=repr(S)))
-            if gt(swait, I(creating)): out.append(s.vio('C11', 'status().waiting exceeds callers inside get()', st, status=repr(S)))
+            ingets = len(pending) + sum(1 for t in s.tasks if st.threads[t].stack and (st.threads[t].local.get('op') or ((None,),))[0][0] in ('get', 'poll', 'cancel'))
+            if gt(swait, I(ingets)): out.append(s.vio('C11', f'status().waiting exceeds the {ingets} callers inside get()', st, status=repr(S)))
         for v in (ssize, savail, swait):
             if gt(v, I(1 << 62)): out.append(s.vio('C11', 'a status counter wrapped around', st, status=repr(S)))
         if not st.gget('resizes') and not st.gget('close_started') and gt(ssize, smax):
@@ -745,13 +779,29 @@ def _digest(s, st0, a, st):
         nonlocal cur
         if cur is not None and oid not in cur['inhand']:
             cur = dict(cur, inhand=cur['inhand'] + (oid,)); calls[actor] = cur
+    # thread mode: the ghost queue is only ordered by happens-before.  hb[oid] = (ordinal of the action that began the
+    # return, ordinal of the step that completed it); A is definitely older than B iff A's return completed before B's began.
+    hb = dict(st.gget('hb', {})); cwi = list(st.gget('cwi', ()))
+    nact = sum(1 for e in st.log if e[0] == 'act')
+    others_idle = all(not st.threads[t_].stack for t_ in st.threads if t_ != actor)
+    def left_queue(oid):
+        nonlocal cwi
+        if cwi: cwi = [(w, tuple(o for o in ids if o != oid)) for w, ids in cwi]
     def offered(oid):
         # first touch of an idle object by a get(): must be the one the queue mode prescribes
         if oid in idleq:
             exp = idleq[-1] if lifo else idleq[0]
             if oid != exp and not thread_mode:
                 vio('C08', f'get() offered {oid} for recycling but the {"newest" if lifo else "oldest"} idle object is {exp}')
-            idleq.remove(oid)
+            if thread_mode and others_idle and oid in hb:
+                # no other operation is in flight, so every object of the ghost queue really is in the queue
+                for o2 in idleq:
+                    if o2 == oid or o2 not in hb: continue
+                    if not lifo and hb[o2][1] < hb[oid][0]:
+                        vio('C08', f'get() offered {oid} for recycling although {o2} has been idle longer (its return had completed before that of {oid} began)'); break
+                    if lifo and hb[o2][0] > hb[oid][1]:
+                        vio('C08', f'get() offered {oid} for recycling although {o2} was returned more recently (its return began after that of {oid} had completed)'); break
+            idleq.remove(oid); left_queue(oid)
     for e in ev:
         k = e[0]
         if k in ('create_call', 'created', 'hook_call', 'recycle_call', 'detach', 'destroy', 'pred_call'):
@@ -763,6 +813,11 @@ def _digest(s, st0, a, st):
         if k == 'create_call':
             if idleq and not thread_mode:
                 vio('C08', 'Manager::create called although an idle object was available')
+            if idleq and thread_mode and cur is not None:
+                # decided later: objects that were idle before this get() began and are still in the queue, untouched, when
+                # every thread is quiescent again were idle the whole time - the get() had an idle object to try
+                ids = tuple(o for o in idleq if o in hb and hb[o][1] < cur.get('began', 0))
+                if ids: cwi.append((actor, ids))
             # objects alive at the moment of the call (those created later in this action do not count)
             later = set()
             for e2 in ev[ev.index(e):]:
@@ -800,10 +855,10 @@ def _digest(s, st0, a, st):
                 tr = trail.get(oid, ())
                 if tr and tr[-1][2] == 'started': trail[oid] = tr[:-1] + ((tr[-1][0], tr[-1][1], 'timeout'),)
         elif k == 'handed':
-            if e[1] in idleq: idleq.remove(e[1])
+            if e[1] in idleq: idleq.remove(e[1]); left_queue(e[1])
         elif k == 'destroy':
             if e[1] in idleq:
-                idleq.remove(e[1])
+                idleq.remove(e[1]); left_queue(e[1])
                 if not resizing and a[0] != 'retain' and not thread_mode:
                     vio('C05' if False else 'C09', f'idle object {e[1]} destroyed by {a[0]}')
     # ---- end of a get() call on this action?
@@ -878,6 +933,8 @@ def _digest(s, st0, a, st):
         oid = last['oid']; r = objs[oid]
         if r['destroyed'] == 0:
             idleq.append(oid)
+            started = [i for i, e in enumerate(x for x in st.log if x[0] == 'act') if e[1] == 'drop' and len(e) > 2 and e[2] == actor]
+            hb[oid] = (started[-1] + 1 if started else nact, nact)
             if last.get('after_close'):
                 vio('C06', f'object {oid} returned after close() is kept by the closed pool')
     # ---- is_closed(): false until close() is called, true once it has returned (and for ever after)
@@ -924,6 +981,15 @@ def _digest(s, st0, a, st):
                 V.append(s.c07_known(st, d_) if a[0] == 'resize' else d_)
         elif a[0] == 'resize':
             if len(s.live_ids(st0)) != live: vio('C06', 'resize() on a closed pool changed the pool')
+    if thread_mode and cwi and all(not st.threads[t_].stack for t_ in st.threads):
+        for w, ids in cwi:
+            still = [o for o in ids if o in idleq]
+            if still: vio('C08', f'Manager::create was called by a get() of {w} although {still[0]} was idle from before that get() began until every operation had finished')
+        cwi = []
+    hb = {k_: v_ for k_, v_ in hb.items() if k_ in idleq}
+    pts = sorted({x for v_ in hb.values() for x in v_})
+    st.gset('hb', hb); st.gset('cwi', tuple(cwi))
+    st.gset('hbk', tuple(sorted((k_, pts.index(v_[0]), pts.index(v_[1])) for k_, v_ in hb.items())) if thread_mode else ())
     st.gset('trail', trail); st.gset('idleq', tuple(idleq)); st.gset('calls', calls); st.gset('met_shadow', shadow)
     return V
 
